@@ -717,7 +717,7 @@ Proof.
   intros [s2 c0] [Hw2 Hns]. cbn [fst] in *.
   assert (Hle2 : le_s s1 s2).
   { destruct Hns as [Hns|[Hns _]]; [|rewrite Hns]; auto with opt. }
-  eapply safe_bind. { apply (flow_scalar_f_safe n _ _ Hq); [eassumption | unfold fuel_of; lia]. }
+  eapply safe_bind. { apply (flow_scalar_f_safe n _ _ Hq); [eassumption | unfold fuel_of, le_s in *; lia]. }
   intros [s3 chunks] [[Hw3 Hle3] Hpk3]. cbn [fst] in *.
   destruct (forward_1 _ _ _ Hw3 Hpk3 Hc) as [s4 [H4 [Hw4 Hlt4]]]. rewrite H4. cbn [bind safe].
   split; cbn [fst]; [assumption | unfold le_s, lt_s in *; lia].
